@@ -4,6 +4,7 @@ children).  Every process appends its observations to its own JSON-lines file.""
 from __future__ import annotations
 
 import json
+import multiprocessing
 import os
 import random
 import threading
@@ -188,6 +189,24 @@ def install_delays(seed):
     utils.Array = slow_array
 
 
+class RunProcess(multiprocessing.Process):
+    """The other documented way to use multiprocessing.Process: a subclass overriding
+    run() (instead of passing a target)."""
+
+    def __init__(self, vf_args):
+        super().__init__()
+        self.vf_args = vf_args
+
+    def run(self):
+        child_main(*self.vf_args)
+
+
+def make_process(cfg, args):
+    if cfg.get("subclass"):
+        return RunProcess(args)
+    return multiprocessing.Process(target=child_main, args=args)
+
+
 def child_main(cfg, tag, seed, level):
     """Entry point of a child process (started with multiprocessing.Process)."""
     import multiprocessing as mp
@@ -209,7 +228,7 @@ def child_main(cfg, tag, seed, level):
     if level < cfg["depth"]:
         for j in range(cfg["grandchildren"]):
             time.sleep(random.Random(seed + j).uniform(0, 0.003))
-            p = mp.Process(target=child_main, args=(cfg, "%s.g%d" % (tag, j), seed * 7 + j, level + 1))
+            p = make_process(cfg, (cfg, "%s.g%d" % (tag, j), seed * 7 + j, level + 1))
             p.start()
             procs.append(p)
     announce_ready()
